@@ -18,13 +18,16 @@ import (
 )
 
 // ---- family 1: soft-delete chain, integer keys ---------------------------------------------
+// Note is declared first and is nullable: a joined row whose first column is NULL still exists.
 type SC struct {
+	Note      *string
 	ID        int64
 	Name      string
 	V         int
 	DeletedAt gorm.DeletedAt
 }
 type SB struct {
+	Note      *string
 	ID        int64
 	Name      string
 	V         int
@@ -40,6 +43,7 @@ type SKid struct {
 	DeletedAt gorm.DeletedAt
 }
 type SOne struct {
+	Note      *string
 	ID        int64
 	SAID      *int64
 	Name      string
@@ -215,6 +219,14 @@ func sp(s string) *string { return &s }
 
 var stamp = "2020-01-02 03:04:05"
 
+// note: the first declared column of the joined models is NULL for odd ids
+func note(id int64) interface{} {
+	if id%2 == 1 {
+		return nil
+	}
+	return "n"
+}
+
 func del(b bool) interface{} {
 	if b {
 		return stamp
@@ -312,12 +324,12 @@ func genF1(r *rand.Rand) *f1data {
 func (e *Env) loadF1(d *f1data) error {
 	e.wipe()
 	for _, c := range d.cs {
-		if _, err := e.SQL.Exec("INSERT INTO scs(id,name,v,deleted_at) VALUES(?,?,?,?)", c.ID, c.Name, c.V, del(d.cdel[c.ID])); err != nil {
+		if _, err := e.SQL.Exec("INSERT INTO scs(id,name,v,deleted_at,note) VALUES(?,?,?,?,?)", c.ID, c.Name, c.V, del(d.cdel[c.ID]), note(c.ID)); err != nil {
 			return err
 		}
 	}
 	for _, b := range d.bs {
-		if _, err := e.SQL.Exec("INSERT INTO sbs(id,name,v,sc_id,deleted_at) VALUES(?,?,?,?,?)", b.ID, b.Name, b.V, b.SCID, del(d.bdel[b.ID])); err != nil {
+		if _, err := e.SQL.Exec("INSERT INTO sbs(id,name,v,sc_id,deleted_at,note) VALUES(?,?,?,?,?,?)", b.ID, b.Name, b.V, b.SCID, del(d.bdel[b.ID]), note(b.ID)); err != nil {
 			return err
 		}
 	}
@@ -332,7 +344,7 @@ func (e *Env) loadF1(d *f1data) error {
 		}
 	}
 	for _, o := range d.ones {
-		if _, err := e.SQL.Exec("INSERT INTO s_ones(id,sa_id,name,v,deleted_at) VALUES(?,?,?,?,?)", o.ID, o.SAID, o.Name, o.V, del(d.odel[o.ID])); err != nil {
+		if _, err := e.SQL.Exec("INSERT INTO s_ones(id,sa_id,name,v,deleted_at,note) VALUES(?,?,?,?,?,?)", o.ID, o.SAID, o.Name, o.V, del(d.odel[o.ID]), note(o.ID)); err != nil {
 			return err
 		}
 	}
